@@ -26,6 +26,18 @@ func init() {
 }
 
 func runC39(c *Ctx) []Obligation {
+	out := runC39rows(c)
+	P := "C39"
+	get := `invoke crypto\.MultiSig\.GetSignatureByIndex\(var:multiSig, phi:i\)`
+	ver := `invoke crypto\.PublicKey\.VerifyBytes\(pms\.PublicKeys\[phi:i\], msg, ` + get + `#0\)`
+	out = append(out,
+		c.edgeMust(P, "multisig.member-failure-returns-false", "(crypto.PublicKeyMultiSignature).VerifyBytes", `^`+ver+`$`, false, `ret:^false$`, 1, "a member key that rejects its signature ends the verification with false (the loop does not move on)"),
+		c.edgeMust(P, "multisig.missing-index-returns-false", "(crypto.PublicKeyMultiSignature).VerifyBytes", `^`+get+`#1$`, false, `ret:^false$`, 1, "a missing signature ends the verification with false"),
+	)
+	return out
+}
+
+func runC39rows(c *Ctx) []Obligation {
 	P := "C39"
 	V := "(crypto.PublicKeyMultiSignature).VerifyBytes"
 	dec := `^nonnil\(\(\*codec\.LegacyAmino\)\.UnmarshalBinaryBare\(crypto\.cdc, multiSignature, &var:multiSig\)\)$`
